@@ -132,7 +132,7 @@ pub struct Layout {
     pub header: bool,
 }
 
-const GAPS: [&str; 6] = [" ", "\n", "\t ", " // comment 'x' { |\n", " /* c: ; | */ ", " /* first line\n// second line */ "];
+const GAPS: [&str; 9] = [" ", "\n", "\t ", " // comment 'x' { |\n", " /* c: ; | */ ", " /* first line\n// second line */ ", " /** doc **/ ", "/**/", " /* a * b / c ***/ "];
 
 const EPP_VALUE: &str = "the \"plus\" 'sign'";
 
@@ -355,12 +355,18 @@ fn check_one(ctx: &Ctx, s: &YSpec, l: &Layout, text: &str, st: &mut Stats) -> Op
         return None;
     }
     let user_name = |r: usize| if r < g.nrules() { g.rule_name(r) } else { "Unused".to_string() };
+    // the user's rules keep their source order (where the added rules sit is not prescribed)
+    let mut user_ridx: Vec<RIdx<u32>> = vec![];
     for r in 0..nuser {
-        let ridx = RIdx((1 + eco_extra + r) as u32);
-        if grm.rule_name_str(ridx) != user_name(r) || grm.rule_idx(&user_name(r)) != Some(ridx) {
-            bad("c10-rule-order", format!("rule {} is '{}' but the {}th rule of the source is '{}'", usize::from(ridx), grm.rule_name_str(ridx), r, user_name(r)));
+        let Some(ridx) = grm.rule_idx(&user_name(r)) else {
+            bad("c10-rule-missing", format!("rule '{}' of the source is not in the grammar", user_name(r)));
+            return None;
+        };
+        if usize::from(ridx) >= nrules || grm.rule_name_str(ridx) != user_name(r) || user_ridx.last().map(|p| usize::from(*p) >= usize::from(ridx)).unwrap_or(false) {
+            bad("c10-rule-order", format!("rule '{}' (the {}th of the source) has index {}: the rules do not keep their source order", user_name(r), r, usize::from(ridx)));
             return None;
         }
+        user_ridx.push(ridx);
         let sp = grm.rule_name_span(ridx);
         st.spans += 1;
         if text.get(sp.start()..sp.end()) != Some(user_name(r).as_str()) {
@@ -461,7 +467,7 @@ fn check_one(ctx: &Ctx, s: &YSpec, l: &Layout, text: &str, st: &mut Stats) -> Op
         Symbol::Token(t) => format!("T:{}", grm.token_name(*t).unwrap_or("$")),
     };
     for r in 0..nuser {
-        let ridx = RIdx((1 + eco_extra + r) as u32);
+        let ridx = user_ridx[r];
         let prods: Vec<Vec<Sym>> = if r < g.nrules() { g.rules[r].clone() } else { vec![vec![]] };
         let pidxs = grm.rule_to_prods(ridx);
         if pidxs.len() != prods.len() {
@@ -572,7 +578,7 @@ fn check_one(ctx: &Ctx, s: &YSpec, l: &Layout, text: &str, st: &mut Stats) -> Op
     let start_ridx = grm.start_rule_idx();
     let sp = grm.prod(grm.start_prod());
     let exp_start = if eco_extra > 0 { "R:^~".to_string() } else { format!("R:{}", g.rule_name(0)) };
-    if usize::from(start_ridx) != 0 || grm.rule_to_prods(start_ridx).len() != 1 || sp.len() != 1 || sym_name(&sp[0]) != exp_start || grm.prod_to_rule(grm.start_prod()) != start_ridx {
+    if user_ridx.contains(&start_ridx) || grm.rule_to_prods(start_ridx).len() != 1 || sp.len() != 1 || sym_name(&sp[0]) != exp_start || grm.prod_to_rule(grm.start_prod()) != start_ridx {
         bad("c10-start", format!("the added start rule is rule {} with production {:?}, expected one production deriving {}", usize::from(start_ridx), sp.iter().map(|x| sym_name(x)).collect::<Vec<_>>(), exp_start));
     }
     if eco_extra > 0 {
